@@ -439,6 +439,19 @@ def body_diagonalised(case, ctx):
                   "the reflection has a spacelike normal", normal=nv)
     Rh = [np.asarray(hyp[[nm]].matrix).T for nm in names]
     check_relations(ctx, "hyperbolic", Rh, M)
+    # the inverse letters are generators too (each reflection is its own inverse), for the
+    # representation itself and for what is derived from it
+    moved = hyp.conjugate(hyperbolic.Point(np.full(n - 1, 0.2 / math.sqrt(n)),
+                                           model="klein").origin_to())
+    for i, nm in enumerate(names):
+        inv_nm = nm.upper()
+        ctx.close("hyperbolic_rep(): the inverse letter of a generator is the generator",
+                  np.asarray(hyp[[inv_nm]].matrix).T, Rh[i], rtol=0,
+                  atol=1e-9 * kappa * max(1.0, np.linalg.norm(Rh[i], 2)) ** 2, i=i)
+        Am = np.asarray(moved[[inv_nm, nm]].matrix)
+        ctx.close("conjugate of hyperbolic_rep(): inverse letter times letter is the identity",
+                  Am, np.eye(n), rtol=0,
+                  atol=1e-8 * kappa * max(1.0, np.linalg.norm(Rh[i], 2)) ** 2, i=i)
     # the walls of all generators at once: unit normals with Gram matrix (up to the sign of
     # each normal) the cosine matrix
     walls = hyperbolic.Hyperplane.from_reflection(hyp.isometries([[nm] for nm in names]))
@@ -584,6 +597,18 @@ def body_cartan(case, ctx):
             ctx.check(np.array_equal(permuted(Ai, G, names), np.round(R[i]).astype(int)),
                       "tits_vinberg_rep(dtype=int) = the float representation, exactly",
                       got=permuted(Ai, G, names).tolist(), want=np.round(R[i]).tolist())
+        # a change of basis with non-integral entries, applied to the integer-typed
+        # representation: conjugates of the same reflections, not their integer parts
+        Bf = np.eye(n) + 0.5 * np.triu(np.ones((n, n)), 1)
+        tc = tvi.conjugate(Bf.copy())
+        Bi = np.linalg.inv(Bf)
+        for i, nm in enumerate(names):
+            Ai = np.asarray(tvi[nm] if len(nm) == 1 else tvi[[nm]]).astype(float)
+            Ac = np.asarray(tc[nm] if len(nm) == 1 else tc[[nm]], dtype=float)
+            ctx.close("conjugate(B) of the integer-typed representation is B^-1 rho(s) B",
+                      Ac, Bi @ Ai @ Bf, rtol=0, atol=1e-10 * max(1.0, np.abs(Ai).max()) * n)
+            ctx.close("... and still an involution", Ac @ Ac, np.eye(n), rtol=0,
+                      atol=1e-9 * max(1.0, np.abs(Ai).max()) ** 2 * n)
     # the same through cartan_representation on a harness-made Cartan matrix (all
     # parameters honoured, also on 0-coded edges)
     Cfull = 2 * B
@@ -764,6 +789,18 @@ def body_triangle(case, ctx):
             ctx.close("angle between the library's unit tangents at a vertex is pi/m",
                       float(t1.angle(t2)), math.pi / orders[k], rtol=0, atol=1e-6, k=k,
                       pqr=[p, q, r])
+        # the sides as the library measures them between the reported vertices, and the
+        # angles the hyperbolic law of cosines gives for them
+        side = [float(np.asarray(hyperbolic.Point(V[(k + 1) % 3].copy()).distance(
+            hyperbolic.Point(V[(k + 2) % 3].copy())))) for k in range(3)]
+        ctx.check(all(math.isfinite(x) and x > 1e-3 for x in side), "the library's distances "
+                  "between the three (distinct) vertices are positive", sides=side)
+        for k in range(3):
+            a_, b_, c_ = side[(k + 1) % 3], side[(k + 2) % 3], side[k]
+            cs = (math.cosh(a_) * math.cosh(b_) - math.cosh(c_)) / (math.sinh(a_) * math.sinh(b_))
+            ctx.close("law of cosines on the library's side lengths gives pi/m",
+                      math.acos(max(-1.0, min(1.0, cs))), math.pi / orders[k], rtol=0,
+                      atol=1e-6, k=k, sides=side)
         # all three at once, on the composite the library returned (its own representatives,
         # which need not lie on one sheet of the hyperboloid)
         nxt = fp[[1, 2, 0]]
